@@ -1,6 +1,8 @@
 //! Shared scaffolding for the E1 (position-graph) properties.
 
+use crate::bridge::*;
 use crate::engine::plan::*;
+use crate::refmodel::*;
 use crate::engine::posgraph::*;
 use crate::run::{Run, Tier};
 use serde_json::{json, Value};
@@ -42,4 +44,104 @@ pub fn replay_e1<O: PosOracle>(id: &str, counters: &'static [&'static str], orac
             2
         }
     }
+}
+
+thread_local! {
+    static SIBS: std::cell::RefCell<(Option<RefPos>, Vec<chess::Board>)> = std::cell::RefCell::new((None, vec![]));
+}
+/// Boards to pre-fill the output of the in-place make_move with: the source's placement under other
+/// castling rights / en-passant state / side to move, and the source's SQUARES with the kinds of two men
+/// of one colour exchanged (valid ones only).  A shortcut "the output already holds this position" that
+/// compares less than the whole board leaves stale fields behind in exactly these cases.
+/// Are the sibling pre-fills tried for transitions out of this state?  Always for roots and family members
+/// (depth 0: every placement of every family is a source there), for one in eight deeper states.
+pub fn prefill_here(s: &St) -> bool {
+    s.path.is_none() || s.key.bd.iter().enumerate().fold(0u32, |a, (i, b)| a.wrapping_mul(31).wrapping_add(*b as u32 * (i as u32 + 1))) % 8 == 0
+}
+/// The siblings for transitions out of `s` (empty where `prefill_here` says no); cached per source state.
+pub fn prefill_siblings_of(s: &St) -> Vec<chess::Board> {
+    let hit = SIBS.with(|c| {
+        let c = c.borrow();
+        if c.0 == Some(s.key) {
+            Some(c.1.clone())
+        } else {
+            None
+        }
+    });
+    if let Some(v) = hit {
+        return v;
+    }
+    if prefill_here(s) {
+        prefill_siblings(&s.key)
+    } else {
+        SIBS.with(|c| *c.borrow_mut() = (Some(s.key), vec![]));
+        vec![]
+    }
+}
+pub fn prefill_siblings(p: &RefPos) -> Vec<chess::Board> {
+    SIBS.with(|c| {
+        let mut c = c.borrow_mut();
+        if c.0 != Some(*p) {
+            let mut v: Vec<RefPos> = vec![];
+            let mut maxr = 0u8;
+            for (bit, col, rf) in [(WK, Col::W, 7i8), (WQ, Col::W, 0), (BK, Col::B, 7), (BQ, Col::B, 0)] {
+                let hr = col.home_rank();
+                if p.at(sq(4, hr)) == Some((Kind::K, col)) && p.at(sq(rf, hr)) == Some((Kind::R, col)) {
+                    maxr |= bit;
+                }
+            }
+            let mut rights: Vec<u8> = vec![maxr, 0];
+            for bit in [WK, WQ, BK, BQ] {
+                rights.push(p.castle & !bit);
+                rights.push((p.castle | bit) & maxr);
+            }
+            rights.sort();
+            rights.dedup();
+            for r in rights {
+                if r != p.castle {
+                    let mut q = *p;
+                    q.castle = r;
+                    v.push(q);
+                }
+            }
+            if p.dp >= 0 {
+                let mut q = *p;
+                q.dp = -1;
+                v.push(q);
+            }
+            let mut q = *p;
+            q.stm = p.stm.flip();
+            q.dp = -1;
+            v.push(q);
+            // same squares, kinds of two men of one colour exchanged (rights dropped: they may lose their backing)
+            for col in [Col::W, Col::B] {
+                let men: Vec<Sq> = (0..64u8).filter(|s| matches!(p.at(*s), Some((_, c)) if c == col)).collect();
+                let mut made = 0;
+                'outer: for i in 0..men.len() {
+                    for j in (i + 1)..men.len() {
+                        let (a, b) = (p.at(men[i]).unwrap().0, p.at(men[j]).unwrap().0);
+                        if a != b {
+                            let mut q = *p;
+                            q.castle = 0;
+                            q.dp = -1;
+                            q.clear(men[i]);
+                            q.clear(men[j]);
+                            q.put(men[i], b, col);
+                            q.put(men[j], a, col);
+                            if q.is_valid() {
+                                v.push(q);
+                                made += 1;
+                                if made >= 3 {
+                                    break 'outer;
+                                }
+                            }
+                        }
+                    }
+                }
+            }
+            let boards: Vec<chess::Board> = v.into_iter().filter(|q| q.is_valid()).filter_map(|q| crate::guard::lib(|| from_scratch(&q)).ok().and_then(|r| r.ok())).collect();
+            *c = (Some(*p), boards);
+        }
+        c.1.clone()
+    })
 }
